@@ -4,8 +4,10 @@
 //! cryptographic primitive calls with the same RustCrypto crates the implementation links.
 mod canon;
 mod framed;
+mod old_ws;
 mod prims;
 mod rng;
+mod t1_adapters;
 mod t1_addr;
 mod t1_config;
 mod t1_misc;
@@ -26,6 +28,7 @@ pub fn emit_case(w: &mut dyn Write, args: &[String], exec: fn(&[&str]) -> Vec<St
 fn exec_case(f: &[&str]) -> Vec<String> {
     match f[0] {
         "pw" => t1_pw::exec(f),
+        "adapt" => t1_adapters::exec(f),
         "sstcp" => t1_sstcp::exec(f),
         "vmbody" | "vmsrv" | "vmcli" => t1_vmess::exec(f),
         "trojsrv" | "trojcu" | "trojenc" | "trojsenc" | "s5ir" | "s5cr" | "s5irs" | "s5crs" | "s5udp" | "s5udpenc" | "http" => t1_misc::exec(f),
@@ -74,6 +77,7 @@ fn main() {
                 "http" => t1_misc::generate_http(&mut out, seed, thorough),
                 "addr" => t1_addr::generate(&mut out, seed, thorough),
                 "config" => t1_config::generate(&mut out, seed, thorough),
+                "adapters" => t1_adapters::generate(&mut out, seed, thorough),
                 _ => {
                     eprintln!("unknown component {}", comp);
                     std::process::exit(2);
